@@ -29,6 +29,10 @@ Proof.
   repeat match goal with |- context [if ?c then _ else _] => destruct c end; lia.
 Qed.
 
+Lemma radix_passes_for_ok max : max < 2 ^ 32 ->
+  max < 2 ^ (radix_passes_for max * 8) /\ radix_passes_for max <= 4.
+Proof. intros H. split; [apply radix_passes_for_covers; exact H | apply radix_passes_for_le4]. Qed.
+
 (* ---- digits ---------------------------------------------------------------------------------- *)
 
 Lemma digit_spec k v : digit k v = (v / 2 ^ (k * 8)) mod 256.
